@@ -212,6 +212,7 @@ pub fn check_threads(case: &ThreadCase) -> Report {
         let seed = case.seed ^ (p as u64 + 1).wrapping_mul(0x9E3779B97F4A7C15);
         let n = case.items_per_producer as u32;
         producers.push(std::thread::spawn(move || {
+            vh::event("producer-id", p as u64, 0);
             let mut r = SplitMix::new(seed);
             let mut accepted: Vec<(u8, u32, u32)> = Vec::new();
             for k in 0..n {
@@ -232,6 +233,7 @@ pub fn check_threads(case: &ThreadCase) -> Report {
         let q = q.clone();
         let seed = case.seed ^ (c + 77).wrapping_mul(0xD1B54A32D192ED03);
         consumers.push(std::thread::spawn(move || {
+            vh::event("consumer-id", c, 0);
             let mut r = SplitMix::new(seed);
             let mut got = Vec::new();
             while let Some(it) = q.pull() {
@@ -262,67 +264,42 @@ pub fn check_threads(case: &ThreadCase) -> Report {
         return Report::fail("items or bytes left after every consumer saw end-of-stream".to_string());
     }
     // replay the log (written under the queue lock = linearisation order) against the model.
-    // Per thread the k-th admit / take event belongs to its k-th accepted push / pulled item.
-    let mut thread_admits: std::collections::BTreeMap<u64, Vec<usize>> = Default::default();
-    let mut thread_takes: std::collections::BTreeMap<u64, Vec<usize>> = Default::default();
-    for (i, e) in log.iter().enumerate() {
+    // Every producer / consumer announced itself with an id event, so a log thread number maps to
+    // exactly one of them; its k-th admit / take event is its k-th accepted push / pulled item.
+    let mut producer_of: std::collections::BTreeMap<u64, usize> = Default::default();
+    let mut consumer_of: std::collections::BTreeMap<u64, usize> = Default::default();
+    for e in &log {
         match e.kind {
-            "admit" => thread_admits.entry(e.thread).or_default().push(i),
-            "take" => thread_takes.entry(e.thread).or_default().push(i),
+            "producer-id" => {
+                producer_of.insert(e.thread, e.a as usize);
+            }
+            "consumer-id" => {
+                consumer_of.insert(e.thread, e.a as usize);
+            }
             _ => {}
         }
     }
-    // match threads to producers / consumers by their event counts and sizes: an accepted-push list
-    // of length n belongs to a thread with n admit events whose priorities are unknown to the log,
-    // so attribute by order of first event = order of spawn is not reliable; instead replay with the
-    // multiset only: every take must remove an element that is maximal among those admitted and
-    // not yet taken. Priorities of admitted items are recovered through the per-producer sequences.
-    // Producers are distinguished by matching admit counts AND the size sequence they pushed.
-    let mut item_of_event: Vec<Option<(u8, u32, u32)>> = vec![None; log.len()];
-    let mut used_threads: std::collections::BTreeSet<u64> = Default::default();
-    for (p, acc) in accepted.iter().enumerate() {
-        // recompute the sizes this producer used
-        let seed = case.seed ^ (p as u64 + 1).wrapping_mul(0x9E3779B97F4A7C15);
-        let mut r = SplitMix::new(seed);
-        let mut sizes_of: std::collections::BTreeMap<(u8, u32, u32), usize> = Default::default();
-        for k in 0..case.items_per_producer as u32 {
-            let size = r.below(cap as u64 + 1) as usize;
-            let item = (r.below(4) as u8, p as u32, k);
-            let _ = r.below(4) == 0 && { r.below(200); true };
-            sizes_of.insert(item, size);
-        }
-        let want_sizes: Vec<u64> = acc.iter().map(|it| sizes_of[it] as u64).collect();
-        let t = thread_admits.iter().find(|(t, evs)| !used_threads.contains(*t) && evs.len() == acc.len() && evs.iter().map(|&i| log[i].a).collect::<Vec<_>>() == want_sizes).map(|(t, _)| *t);
-        match t {
-            Some(t) => {
-                used_threads.insert(t);
-                for (k, &i) in thread_admits[&t].iter().enumerate() {
-                    item_of_event[i] = Some(acc[k]);
-                }
-            }
-            None => {
-                if !acc.is_empty() {
-                    return Report::fail(format!("no thread in the queue's event log admitted the {} items producer {} had accepted", acc.len(), p));
-                }
-            }
-        }
-    }
+    let mut next_admit = vec![0usize; accepted.len()];
+    let mut next_take = vec![0usize; pulled.len()];
     let mut model: Vec<((u8, u32, u32), u64)> = Vec::new();
     let mut bytes = 0u64;
     let mut closed = false;
     let (mut pw, mut cw, mut mix) = (false, false, false);
     let mut taken_prios_ok = true;
     let mut take_count = 0usize;
-    for (i, e) in log.iter().enumerate() {
+    for e in log.iter() {
         match e.kind {
             "admit" => {
                 if closed {
                     return Report::fail("an item was admitted after close (event log)".to_string());
                 }
-                let it = match item_of_event[i] {
-                    Some(it) => it,
-                    None => return Report::fail("an admit event belongs to no accepted push".to_string()),
+                let Some(&p) = producer_of.get(&e.thread) else {
+                    return Report::fail("an admit event comes from a thread that is no producer".to_string());
                 };
+                let Some(&it) = accepted[p].get(next_admit[p]) else {
+                    return Report::fail(format!("producer {} has more admit events than accepted pushes", p));
+                };
+                next_admit[p] += 1;
                 bytes += e.a;
                 model.push((it, e.a));
                 if bytes > cap as u64 {
@@ -340,24 +317,25 @@ pub fn check_threads(case: &ThreadCase) -> Report {
             }
             "take" => {
                 take_count += 1;
-                // which item: the log does not say; the queue pops its maximum, so the taken size must
-                // belong to a maximal-priority item of that size
-                let best = model.iter().map(|m| m.0 .0).max();
-                let pos = model.iter().position(|m| Some(m.0 .0) == best && m.1 == e.a);
-                match pos {
-                    Some(p) => {
-                        let (_, sz) = model.remove(p);
-                        bytes -= sz;
-                    }
-                    None => {
-                        taken_prios_ok = false;
-                        // remove some item of that size to keep the byte model aligned
-                        if let Some(p) = model.iter().position(|m| m.1 == e.a) {
-                            let (_, sz) = model.remove(p);
-                            bytes -= sz;
-                        }
-                    }
+                let Some(&c) = consumer_of.get(&e.thread) else {
+                    return Report::fail("a take event comes from a thread that is no consumer".to_string());
+                };
+                let Some(&it) = pulled[c].get(next_take[c]) else {
+                    return Report::fail(format!("consumer {} has more take events than pulled items", c));
+                };
+                next_take[c] += 1;
+                let Some(pos) = model.iter().position(|m| m.0 == it) else {
+                    return Report::fail(format!("pull returned {:?}, which is not queued at that point of the log (never accepted, or returned twice)", it));
+                };
+                let best = model.iter().map(|m| m.0 .0).max().unwrap();
+                if it.0 < best {
+                    taken_prios_ok = false;
                 }
+                let (_, sz) = model.remove(pos);
+                if sz != e.a {
+                    return Report::fail("size accounted on take differs from the size given on push".to_string());
+                }
+                bytes -= sz;
                 if bytes != e.c {
                     return Report::fail("the queue's byte count differs from the model's after a take".to_string());
                 }
@@ -477,15 +455,15 @@ pub fn shuttle_replay(ctx: &Ctx, run: &ShuttleRun) -> Report {
 }
 
 pub fn run(ctx: &Ctx, stats: &mut Stats) {
-    let n = ctx.tier.pick(200_000, 4_000_000);
+    let n = ctx.tier.pick(1_000_000, 10_000_000);
     run_prop(ctx, stats, "sequential", n, seq_strategy(), &check_seq);
-    let nt = ctx.tier.pick(480, 10_000);
+    let nt = ctx.tier.pick(960, 20_000);
     run_prop(ctx, stats, "threads", nt, thread_strategy(), &check_threads);
     if !ctx.vshuttle.exists() {
         stats.inconclusive.push("vshuttle binary missing".into());
         return;
     }
-    let it = ctx.tier.pick(40_000u64, 1_500_000u64);
+    let it = ctx.tier.pick(150_000u64, 3_000_000u64);
     let seed = ctx.stage_seed("shuttle");
     shuttle_campaign(ctx, stats, "shuttle-random", &ShuttleRun { scenario: "queue".into(), seed, iters: it, pct_depth: None, schedule: None });
     for d in [2u32, 3, 4] {
